@@ -277,6 +277,24 @@ def _partition(case, bad):
                         if clf and meth == "predict":
                             if any(v not in set(numpy.asarray(model.classes_).tolist()) for v in out.tolist()):
                                 bad("predicted label not in classes_", cond, "%r %s" % (sorted(set(out.tolist())), desc))
+                    # the same rows as float32 / integers: the local models' float64 outputs must come back unchanged
+                    for dt in (numpy.float32, numpy.int64):
+                        Pd = X.astype(dt)
+                        for meth in (("predict", "predict_proba") if clf else ("predict",)):
+                            try:
+                                out = numpy.asarray(getattr(model, meth)(Pd))
+                            except Exception as ex:
+                                bad("%s raises %s" % (meth, type(ex).__name__), cond + ",query dtype %s" % numpy.dtype(dt).name, "%s %s" % (str(ex)[:200], desc))
+                                continue
+                            cd = _codes(model, Pd)
+                            for i, c in enumerate(cd):
+                                e = ests[int(grp[c])] if c in grp else model.mean_estimator_
+                                exp = numpy.asarray(getattr(e, meth)(Pd[i:i + 1]))[0]
+                                if not numpy.allclose(numpy.asarray(out[i], dtype=float), numpy.asarray(exp, dtype=float), rtol=1e-12, atol=1e-12):
+                                    bad("a row's %s is not its bucket model's (or the fallback's) output" % meth,
+                                        "%s,query dtype %s" % (cond, numpy.dtype(dt).name),
+                                        "row %r got %r expected %r %s" % (Pd[i].tolist(), numpy.asarray(out[i]).tolist(), numpy.asarray(exp).tolist(), desc))
+                                    break
                     if clf and sorted(numpy.asarray(model.classes_).tolist()) != allcl:
                         bad("classes_ is not the label set", cond, "%r %s" % (model.classes_, desc))
     return cnt, ntriv
